@@ -248,7 +248,7 @@ PLANS = {
         'assumptions': COMMON_ASSUMPTIONS,
     },
     'C13': {
-        'level_text': 'Shorten exactness and maximality and the grouping shape model-checked on odd x 2^k for every k; real code judged on all n < 2^14 (thorough 2^20), strata and random values for Shorten, String, PrettyString, PrettyHTML with BigDec-exact expectations.',
+        'level_text': 'Shorten exactness and maximality and the grouping shape model-checked on odd x 2^k for every k; real code judged on all n < 2^14 (thorough 2^20), strata and random values for Shorten, String, PrettyString, PrettyHTML with BigDec-exact expectations. The renderings are also observed under all eight switch configurations, kept while other sizes are rendered, and after an overridden Formatter was restored.',
         'mc': [{'module': 'MC_Size', 'what': 'Shorten exact and maximal, grouping in threes from the right, on odd x 2^k for every k and boundary values'}],
         'drivers': [{'name': 'c13', 'shards': 8, 'per': 8000, 'tiers': {'thorough': {'shards': 16}}}, CONC('c13'), {'name': 'ovr', 'shards': 1}],
         'codes': ['C13.'],
@@ -288,7 +288,7 @@ PLANS = {
         'assumptions': COMMON_ASSUMPTIONS,
     },
     'C17': {
-        'level_text': 'Generic receiver machine model-checked with action properties (a failing call changes nothing, scribbling changes nothing); Util.tla composes the five package machines (Isolation, KeepOnFail checked exhaustively to depth 3/4) and its simulated behaviours are replayed on persistent real receivers; seeded histories and string/bytes twins judged by TLC.',
+        'level_text': 'Generic receiver machine model-checked with action properties (a failing call changes nothing, scribbling changes nothing); Util.tla composes the five package machines (Isolation, KeepOnFail checked exhaustively to depth 3/4) and its simulated behaviours are replayed on persistent real receivers; seeded histories and string/bytes twins judged by TLC. One caller buffer, two records (twin2) and the Memo.tla model of remembered inputs (negative control: a key that aliases the caller's slice).',
         'pre': [gen_util_behaviours],
         'drivers': [{'name': 'c17', 'shards': 8}, {'name': 'util', 'shards': 4, 'per': 6000}, {'name': 'ovr', 'shards': 1}, CONC('c17')],
         'mc': [UTIL_MC] + MEMO_MC + [{'module': 'MC_C17', 'what': 'generic receiver machine: 3 parsable / 3 unparsable inputs, histories to depth 5: a failing call never changes the receiver, scribbling the input never changes earlier results'}],
@@ -298,7 +298,7 @@ PLANS = {
         'assumptions': COMMON_ASSUMPTIONS,
     },
     'C18': {
-        'level_text': 'The limit gate is model-checked for the five reference parsers; every parsing/validating/comparing entry point is driven with seeded random and structured bytes (invalid UTF-8, NUL, BOM, long runs), the full limit matrix, form prefixes at limit+1 and non-ASCII bytes at every position; demands: no panic, too-long <=> over the limit, no echo of the input.',
+        'level_text': 'The limit gate is model-checked for the five reference parsers; every parsing/validating/comparing entry point is driven with seeded random and structured bytes (invalid UTF-8, NUL, BOM, long runs), the full limit matrix, form prefixes at limit+1 and non-ASCII bytes at every position; demands: no panic, too-long <=> over the limit, no echo of the input. Megabyte inputs are described by shape (giant events: limit gate at scale, cost demands on allocation and stack growth, comparisons judged by the cancellation law); a call that kills the process is found through intent files and reported as a crash; Lazy.tla models configuration changed between calls.',
         'pre': [gen_util_behaviours],
         'drivers': [{'name': 'c18', 'shards': 8, 'per': 8000}, {'name': 'util', 'shards': 4, 'per': 6000}, CONC('c18')],
         'mc': [UTIL_MC] + LAZY_MC + [{'module': 'MC_C18', 'what': 'limit gate shared by the five parsers: maxLen x input length grid'}],
@@ -308,7 +308,7 @@ PLANS = {
         'assumptions': COMMON_ASSUMPTIONS + ['coverage-guided native fuzzing is not part of this technique: inputs are seeded and structured; allocation is not measured'],
     },
     'C19': {
-        'level_text': 'UURandom (Lock; Draw; Draw; Unlock; Compose) model-checked for 3 goroutines x 2 calls in every interleaving with a lock-free negative control; Apalache proves the mask lemma for all 2^126 draw pairs; hook traces of 12 concurrent configurations are validated against the lock protocol, Compose, version/variant, distinctness and per-bit coverage; the harness runs under the race detector.',
+        'level_text': 'UURandom (Lock; Draw; Draw; Unlock; Compose) model-checked for 3 goroutines x 2 calls in every interleaving with a lock-free negative control; Apalache proves the mask lemma for all 2^126 draw pairs; hook traces of 12 concurrent configurations are validated against the lock protocol, Compose, version/variant, distinctness and per-bit coverage; the harness runs under the race detector. Bulk runs of 2^26 (thorough 2^28) ids are summarised (duplicates among 1 in 256 kept ids, wrong version/variant, OR/AND of all ids).',
         'race': True,
         'mc': [{'module': 'MC_C19', 'what': 'UURandom: 3 goroutines x 2 calls, all interleavings: mutual exclusion, consecutive draws, no sharing; liveness AllDone'},
                {'module': 'MC_C19', 'cfg': 'MC_C19_nolock', 'expect_violation': 'Consecutive', 'what': 'negative control: without the lock TLC finds interleaved draws'}],
@@ -326,7 +326,7 @@ PLANS = {
                                              'schedules are those the Go scheduler produced in this run (GOMAXPROCS 1..16, yields in the critical section); they are not enumerated'],
     },
     'C20': {
-        'level_text': 'The helpers are specified as an interpreter (CaseFails); TLC enumerates every single test case and all pairs over a reduced alphabet as programs, the harness instantiates them on the real helpers with a recording TestingT, and TLC judges the recorded verdicts; the one deviation of the library is modelled by name and reported as a known finding.',
+        'level_text': 'The helpers are specified as an interpreter (CaseFails); TLC enumerates every single test case and all pairs over a reduced alphabet as programs, the harness instantiates them on the real helpers with a recording TestingT, and TLC judges the recorded verdicts; the one deviation of the library is modelled by name and reported as a known finding. T may be an interface type; Before hooks may complete the case they receive; the unmarshal helpers also run with a TypeHelper; the empty text is data too.',
         'pre': [gen_c20_vectors],
         'drivers': [{'name': 'c20', 'shards': 8, 'per': 20000}],
 
